@@ -1,5 +1,6 @@
 import Iec.Drv.C19
 import Iec.Drv.Asdu
+import Iec.Drv.Srv104
 /-
 iecdrv — line-protocol driver: one operation per input line, one canonical result
 line per operation.  The C harnesses execute the same lines on the real code; the
@@ -9,6 +10,7 @@ open Iec.Drv
 
 structure DrvState where
   asdu : Iec.Drv.Asdu.St := {}
+  srv : Iec.Drv.Srv104.St := {}
 
 def dispatch (st : DrvState) (ws : List String) : DrvState × String :=
   match ws with
@@ -20,7 +22,10 @@ def dispatch (st : DrvState) (ws : List String) : DrvState × String :=
       | none =>
         match Iec.Drv.Asdu.handle st.asdu ws with
         | some (a, s) => ({ st with asdu := a }, s)
-        | none => (st, "bad-op")
+        | none =>
+          match Iec.Drv.Srv104.handle st.srv ws with
+          | some (a, s) => ({ st with srv := a }, s)
+          | none => (st, "bad-op")
 
 partial def loop (h : IO.FS.Stream) (out : IO.FS.Stream) (st : DrvState) : IO Unit := do
   let line ← h.getLine
